@@ -106,6 +106,63 @@ class Summaries:
         return out
 
 
+def nonzero_returns(summ, f):
+    """For an int helper whose result is used as an exit flag: [(atom, guards)] such that `atom` (canonical '<=0' over parameter positions
+    $i) together with the guards (canonical conjuncts, parameter positions substituted where possible) implies that f returns non-zero;
+    None when the helper is not understood (a return value that is not a literal, a return inside a loop, an if-less non-zero return)."""
+    cache = summ.__dict__.setdefault('_nzr', {})
+    if f in cache:
+        return cache[f]
+    pm = flow.parent_map(f.body)
+    ppos = {('%s#%s' % (p['name'], p['id'])): '$%d' % i for i, p in enumerate(f.params)}
+
+    def to_pos(q):
+        return q.subst({a: Poly.atom(ppos[a]) for a in q.atoms() if a in ppos})
+
+    def map_guard(g):
+        if g[0] in ('<=0', '!=0', '==0') and isinstance(g[1], Poly):
+            return (g[0], to_pos(g[1]))
+        return g
+    out = []
+    for n in walk(f.body):
+        if n.get('kind') != 'ReturnStmt' or not kids(n):
+            continue
+        v = fe.int_value(kids(n)[0])
+        if v is None:
+            cache[f] = None
+            return None
+        if v == 0:
+            continue
+        ancs = flow.ancestors(pm, n)
+        if any(a.get('kind') in flow.LOOPS for a in ancs):
+            cache[f] = None
+            return None
+        own = None
+        child = n
+        for a in ancs:
+            if a.get('kind') == 'IfStmt':
+                own = (a, child)
+                break
+            if a.get('kind') != 'CompoundStmt':
+                break
+            child = a
+        if own is None:
+            # unconditional `return 1` at the end: taken whenever no earlier return was; its path conditions are the guards
+            guards = [map_guard(g) for g in flow.path_conditions(pm, n)]
+            out.append((None, guards))
+            continue
+        ifs, ch = own
+        c, t, e = flow.if_parts(ifs)
+        positive = ch is t
+        guards = [map_guard(g) for g in flow.path_conditions(pm, ifs)]
+        for at in from_cond_disj(c, positive):
+            q = to_pos(at[1])
+            if all(a.startswith('$') for a in q.atoms()):
+                out.append((('<=0', q), guards))
+    cache[f] = out
+    return out
+
+
 def norm_path(p, roots):
     """replace the root variable by its $index, array indices by [], drop decl ids"""
     import re
@@ -184,10 +241,59 @@ def expr_delta(n, var):
     return total
 
 
+OPAQUE_CALLS = set()    # helpers used as exit conditions whose returns are not understood (filled by exit_tests, read by run())
+EXIT_STORES = set()     # ids of `flag = literal` statements that falsify a conjunct of the loop condition (set per loop by certificate())
+
+
+def exit_flag_stores(f, loop):
+    """`while (A && !stopped) { ... else stopped = 1; }`: a store of a literal to an integer local that makes a top-level conjunct of the loop
+    condition false ends the loop at the next test, provided every store to that local inside the loop is such a store (it is never reset)
+    and its address is not taken.  Returns the ids of those store statements."""
+    init, cond, inc, body = flow.loop_parts(loop)
+    if cond is None:
+        return set()
+    want = {}
+
+    def conj(c, positive=True):
+        c = strip(c)
+        while c.get('kind') == 'ParenExpr':
+            c = strip(kids(c)[0])
+        if c.get('kind') == 'BinaryOperator' and c.get('opcode') == '&&' and positive:
+            conj(kids(c)[0]); conj(kids(c)[1])
+        elif c.get('kind') == 'BinaryOperator' and c.get('opcode') == '||' and not positive:
+            conj(kids(c)[0], False); conj(kids(c)[1], False)
+        elif c.get('kind') == 'UnaryOperator' and c.get('opcode') == '!':
+            conj(kids(c)[0], not positive)
+        elif c.get('kind') == 'DeclRefExpr' and not fe.is_float_type(c) and c['referencedDecl'].get('kind') == 'VarDecl':
+            want[c['referencedDecl']['id']] = 'zero' if positive else 'nonzero'     # value of the flag that ends the loop
+        elif c.get('kind') == 'BinaryOperator' and c.get('opcode') in ('==', '!=') and fe.int_value(kids(c)[1]) == 0 and fe.ref_id(kids(c)[0]) \
+                and not fe.is_float_type(strip(kids(c)[0])):
+            ends_when_nonzero = (c['opcode'] == '==') == positive
+            want[fe.ref_id(kids(c)[0])] = 'nonzero' if ends_when_nonzero else 'zero'
+    conj(cond)
+    out = set()
+    for did, ends in want.items():
+        stores, ok = [], True
+        for n in walk(loop):
+            if n.get('kind') == 'UnaryOperator' and n.get('opcode') in ('&', '++', '--') and fe.ref_id(kids(n)[0]) == did:
+                ok = False
+            if n.get('kind') in ('BinaryOperator', 'CompoundAssignOperator') and n.get('opcode', '').endswith('=') and \
+                    n.get('opcode') not in ('==', '!=', '<=', '>=') and fe.ref_id(kids(n)[0]) == did:
+                v = fe.int_value(kids(n)[1]) if n.get('opcode') == '=' else None
+                if v is None or (v != 0) != (ends == 'nonzero'):
+                    ok = False
+                stores.append(n)
+        if ok and stores:
+            out |= {id(n) for n in stores}
+    return out
+
+
 def stmt_paths(n, var):
     """set of (delta|None, kind) with kind in norm/cont/exit for paths through statement n"""
     if n is None or not n.get('kind'):
         return {(0, 'norm')}
+    if id(n) in EXIT_STORES or id(strip(n)) in EXIT_STORES:
+        return {(0, 'exit')}
     k = n['kind']
     if k == 'CompoundStmt':
         paths = {(0, 'norm')}
@@ -254,6 +360,21 @@ def iteration_deltas(loop, var):
 
 # ---------------------------------------------------------------------------------------
 
+def unwrap_bool_ternary(c):
+    """`c ? 1 : 0` -> (c, True); `c ? 0 : 1` -> (c, False); else None"""
+    c = strip(c)
+    while c.get('kind') == 'ParenExpr':
+        c = strip(kids(c)[0])
+    if c.get('kind') == 'ConditionalOperator':
+        a, b, d = kids(c)
+        vb, vd = fe.int_value(b), fe.int_value(d)
+        if vb is not None and vd is not None and vb != 0 and vd == 0:
+            return a, True
+        if vb == 0 and vd is not None and vd != 0:
+            return a, False
+    return None
+
+
 def exit_tests(prog, summ, f, loop, pm):
     """canonical integer tests ('<=0', Poly) each of which, when true at the point it is evaluated in
     an iteration, makes the loop exit; only tests evaluated on every iteration are returned."""
@@ -288,6 +409,11 @@ def exit_tests(prog, summ, f, loop, pm):
         # exit <=> not C.  If C = c1 && c2: (not c1) => exit.  If C = c1 || c2: need both; skipped.
         out = []
         c = strip(c)
+        while c.get('kind') == 'ParenExpr':
+            c = strip(kids(c)[0])
+        ub = unwrap_bool_ternary(c)
+        if ub is not None:
+            return from_cond(ub[0], positive if ub[1] else not positive)
         if c.get('kind') == 'BinaryOperator' and c.get('opcode') == '&&' and positive:
             a, b = kids(c)
             return from_cond(a, True) + from_cond(b, True)
@@ -312,6 +438,10 @@ def exit_tests(prog, summ, f, loop, pm):
             if len(defs) == 1 and defs[0] is not None and not outside and depth[0] < 3:
                 depth[0] += 1
                 try:
+                    d0 = strip(defs[0])
+                    if d0.get('kind') == 'CallExpr':
+                        # flag = helper(...): the helper's "returns non-zero when" summary gives the exit tests
+                        return call_tests(d0, None, positive)
                     return from_cond(defs[0], positive)
                 finally:
                     depth[0] -= 1
@@ -344,13 +474,29 @@ def exit_tests(prog, summ, f, loop, pm):
         if g is None or g.body is None:
             return out
         args = call_args(call)
-        for (relk, p) in summ.returns_nonzero_when(g):
+
+        def to_args(q):
             m = {}
-            for a in p.atoms():
-                i = int(a[1:])
-                if i < len(args):
-                    m[a] = exprs.to_poly(args[i])
-            out.append((relk, p.subst(m)))
+            for a in q.atoms():
+                if a.startswith('$') and a[1:].isdigit() and int(a[1:]) < len(args):
+                    m[a] = exprs.to_poly(args[int(a[1:])])
+            return q.subst(m)
+        for (relk, p) in summ.returns_nonzero_when(g):
+            out.append((relk, to_args(p)))
+        nz = nonzero_returns(summ, g)
+        if nz is None:
+            OPAQUE_CALLS.add(g.name)
+        else:
+            for (at, guards) in nz:
+                if at is None:
+                    continue
+                gs = [(x[0], to_args(x[1])) if x[0] in ('<=0', '!=0', '==0') and isinstance(x[1], Poly) else x for x in guards]
+                cand = (at[0], to_args(at[1]))
+                if not gs:
+                    if cand not in out:
+                        out.append(cand)
+                else:
+                    out.append((cand[0], cand[1], gs))
         return out
 
     if cond is not None:
@@ -423,12 +569,19 @@ def exit_tests(prog, summ, f, loop, pm):
             if er and 'continue' not in er and not any(x.get('kind') == 'ContinueStmt' for y in ks_[:i_] for x in walk(y)
                                                        if not any(a.get('kind') in flow.LOOPS for a in [y])):
                 tests += [(t_, []) for t_ in from_cond_disj(c, False, flag_def)]
+    # atoms that come from a helper summary carry the helper's own guards
+    tests = [((t_[0], t_[1]), list(g_) + list(t_[2])) if len(t_) == 3 else (t_, g_) for (t_, g_) in tests]
     return tests
 
 
 def from_cond_disj(c, positive, resolver=None, _d=0):
     """atoms A (canonical '<=0') such that A => (c == positive)"""
     c = strip(c)
+    while c.get('kind') == 'ParenExpr':
+        c = strip(kids(c)[0])
+    ub = unwrap_bool_ternary(c)
+    if ub is not None:
+        return from_cond_disj(ub[0], positive if ub[1] else not positive, resolver, _d)
     if resolver is not None and _d < 3:
         r_ = resolver(c)
         if r_ is not None:
@@ -484,10 +637,62 @@ def bound_stable(prog, summ, f, loop, atoms, var):
     return True, ''
 
 
+def opaque_exit(prog, summ, f, loop):
+    """an exit condition of the loop is an integer flag whose value comes from a call (or from several definitions), or a direct call of a
+    function with a body: the engine has no summary for it, so a missing certificate means "not understood", not "does not terminate"."""
+    init, cond, inc, body = flow.loop_parts(loop)
+    conds = [cond] if cond is not None else []
+    for s in walk(body):
+        if s.get('kind') == 'IfStmt':
+            c, t, e = flow.if_parts(s)
+            if (flow.exits(t) and 'continue' not in flow.exits(t)) or (e is not None and flow.exits(e) and 'continue' not in flow.exits(e)) \
+                    or flow.exits(t) == {'continue'}:
+                conds.append(c)
+
+    def atoms(c):
+        c = strip(c)
+        while c.get('kind') == 'ParenExpr':
+            c = strip(kids(c)[0])
+        ub = unwrap_bool_ternary(c)
+        if ub is not None:
+            return atoms(ub[0])
+        if c.get('kind') == 'BinaryOperator' and c.get('opcode') in ('&&', '||'):
+            return atoms(kids(c)[0]) + atoms(kids(c)[1])
+        if c.get('kind') == 'UnaryOperator' and c.get('opcode') == '!':
+            return atoms(kids(c)[0])
+        if c.get('kind') == 'BinaryOperator' and c.get('opcode') in ('==', '!=') and fe.int_value(kids(c)[1]) == 0:
+            return atoms(kids(c)[0])
+        return [c]
+    for c in conds:
+        for a in atoms(c):
+            if a.get('kind') == 'CallExpr' and not fe.is_float_type(a):
+                g = prog.resolve(f, callee_name(a)) if callee_name(a) else None
+                if g is not None and g.body is not None and nonzero_returns(summ, g) is None:
+                    return 'the exit condition calls %s(), whose return values are not understood' % g.name
+            if a.get('kind') == 'DeclRefExpr' and not fe.is_float_type(a) and a['referencedDecl'].get('kind') == 'VarDecl':
+                did = a['referencedDecl']['id']
+                for n in walk(loop):
+                    rhs = None
+                    if n.get('kind') == 'VarDecl' and n.get('id') == did and kids(n):
+                        rhs = kids(n)[-1]
+                    if n.get('kind') == 'BinaryOperator' and n.get('opcode') == '=' and fe.ref_id(kids(n)[0]) == did:
+                        rhs = kids(n)[1]
+                    if rhs is not None:
+                        for x in walk(rhs):
+                            if x.get('kind') == 'CallExpr' and not fe.is_float_type(x) and callee_name(x):
+                                g = prog.resolve(f, callee_name(x))
+                                if g is not None and g.body is not None and nonzero_returns(summ, g) is None:
+                                    return 'the exit flag `%s` is the result of %s(), whose return values are not understood' % (
+                                        a['referencedDecl'].get('name'), g.name)
+    return None
+
+
 def certificate(prog, summ, f, loop, pm):
     """(kind, detail) or (None, reason)"""
     tests = exit_tests(prog, summ, f, loop, pm)
     reasons = []
+    EXIT_STORES.clear()
+    EXIT_STORES.update(exit_flag_stores(f, loop))
     for ((_, p), guards) in tests:
         # exit when p <= 0.  Need a variable with constant coefficient whose per-iteration change makes p decrease.
         for v in sorted(p.atoms()):
@@ -650,6 +855,12 @@ def run(chk, prog, roots=ROOTS):
                 continue
             init, cond, inc, body = flow.loop_parts(loop)
             ctext = g.unit.text(cond)[:80] if cond is not None else '(none)'
+            opq = opaque_exit(prog, summ, g, loop)
+            if opq:
+                chk.instance(R, desc + ': no certificate and ' + opq + ' (not understood)', 'undecided')
+                chk.broke('%s %s: loop `%s(%s)` has no termination certificate and %s, for which the engine has no summary' % (
+                    g.unit.where(loop), g.name, loop['kind'], ctext, opq))
+                continue
             chk.instance(R, desc + ': no certificate', 'refuted')
             chk.violation(Finding('L.terminates', rel(g.file), g.name,
                                   '%s(%s)' % (loop['kind'], exprs.text_key(cond) if cond is not None else ''),
